@@ -193,6 +193,23 @@ theorem InfL.run_orig (L : InfL) (h : List Op) (hh : ∀ o ∈ h, o.isIndep = fa
     simp only [InfL.run, List.foldl_cons] at this ⊢
     rw [this, L.step_orig o (hh o (by simp))]
 
+/-- the side tables of `evolve_until` before the repair D18 (the code no longer exists in /repo): not part of the executed
+model, kept here for the counterexample `direction_old_counterexample`, which runs the executed `InfL.evolveWith` on them -/
+def Old.sideX (d : Int) : Where := if d < 0 then .left else .right
+def Old.sideY (d : Int) : Where := if d < 0 then .bottom else .top
+
+/-- the amplitudes: if `a₁ = sqrt c` and `a₂ = sqrt (k² c)` (`aᵢ ≥ 0`, `aᵢ² = …`) then `a₂ = k·a₁`
+(pure algebra, used by `C15.phase_sqrt_strength`) -/
+theorem sqrt_strength_amplitude {K : Type} [Field K] [LinearOrder K] [IsStrictOrderedRing K] (c k a₁ a₂ : K)
+    (hk : 0 ≤ k) (h₁ : 0 ≤ a₁) (h₂ : 0 ≤ a₂) (e₁ : a₁ ^ 2 = c) (e₂ : a₂ ^ 2 = k ^ 2 * c) : a₂ = k * a₁ := by
+  have h : (a₂ - k * a₁) * (a₂ + k * a₁) = 0 := by rw [← e₁] at e₂; linear_combination e₂
+  rcases mul_eq_zero.mp h with h | h
+  · linarith
+  · have hka : 0 ≤ k * a₁ := mul_nonneg hk h₁
+    have : a₂ = 0 := by linarith
+    have : k * a₁ = 0 := by linarith
+    linarith
+
 theorem roundHalfEven_int (n : Int) : roundHalfEven (n : Rat) = n := by
   simp [roundHalfEven, Rat.floor_intCast]
 
